@@ -235,7 +235,7 @@ class ExecMixin(object):
         if not isinstance(v, (ast.SetComp, ast.ListComp)) or len(v.generators) != 1:
             return None
         g = v.generators[0]
-        if not g.ifs or g.is_async:
+        if g.is_async:
             return None
         name = node.targets[0].id
         if any(isinstance(x, ast.Name) and x.id == name for x in ast.walk(v)):
@@ -245,13 +245,17 @@ class ExecMixin(object):
             targets=[ast.Name(id=name, ctx=ast.Store())],
             value=ast.Call(func=ast.Name(id="set", ctx=ast.Load()), args=[], keywords=[])
             if is_set else ast.List(elts=[], ctx=ast.Load()), type_comment=None)
-        cond = g.ifs[0] if len(g.ifs) == 1 else ast.BoolOp(op=ast.And(), values=list(g.ifs))
         add = ast.Expr(value=ast.Call(
             func=ast.Attribute(value=ast.Name(id=name, ctx=ast.Load()),
                                attr="add" if is_set else "append", ctx=ast.Load()),
             args=[v.elt], keywords=[]))
-        loop = ast.For(target=g.target, iter=g.iter,
-                       body=[ast.If(test=cond, body=[add], orelse=[])],
+        if g.ifs:
+            cond = g.ifs[0] if len(g.ifs) == 1 else ast.BoolOp(op=ast.And(),
+                                                               values=list(g.ifs))
+            body = [ast.If(test=cond, body=[add], orelse=[])]
+        else:
+            body = [add]          # an unfiltered copy: every element is added
+        loop = ast.For(target=g.target, iter=g.iter, body=body,
                        orelse=[], type_comment=None)
         for n in (init, loop):
             ast.copy_location(n, v)
